@@ -2415,3 +2415,17 @@ def _slice_contains(m, a, c):
         if isinstance(r, Term):
             return Term("contains", v, x)
     return False
+
+
+@reg("<bitcoin::absolute::LockTime as std::fmt::Display>::fmt")
+def _abs_locktime_display(m, a, c):
+    """rust-bitcoin 0.32: plain form prints the consensus integer; the alternate form names the unit"""
+    v, f = deref(a[0]), deref(a[1])
+    n = _lock_int(v)
+    if not isinstance(f, PyFmt) or n is None:
+        return NOT_HANDLED
+    if f.alternate:
+        f.out.append("block-height %d" % n if n < 500_000_000 else "block-time %d (seconds since epoch)" % n)
+    else:
+        f.out.append(str(n))
+    return FMT_OK
